@@ -23,7 +23,9 @@ PLAN = {
             H("c14_from_owned_rejects_max", "from_owned panics when cap == MAX", replay=False),
             H("c14_from_owned_rejects_zst_vec", "from_owned(Vec<()>) panics", replay=False),
             H("c14_generic_release_once", "generic paths release each set of parts exactly once", covers=2),
-            H("c14_str_ops2", "str sequences", kind="bounded", bound="len<=3, cap<=4, 2 ops", covers=1),
+            H("c14_str_borrowed", "str borrowed", kind="bounded", bound="len<=3, 3 ops", covers=2),
+            H("c14_str_owned", "str owned", kind="bounded", bound="len<=3, cap<=4, 2 ops", covers=2),
+            H("c14_str_shared", "str shared", kind="bounded", bound="len<=3, 2 ops", covers=2),
         ],
     }],
 }
